@@ -24,9 +24,16 @@ CATALOGUE = {
     'g2sub':   dict(kind='file', file='tests/mulgrid/g2.dat', seed='ngr'),   # refinement transition: 5 triangles, areas 1:32, 12 surfaces
     'g5sub':   dict(kind='file', file='tests/mulgrid/g5.dat', seed='aar'),   # rotated quadrilaterals, areas 1:4
     'g7sub':   dict(kind='file', file='tests/mulgrid/g7.dat', seed=' cs'),   # triangles and quadrilaterals
+    # piece of the ROUNDED outer boundary of g2: 5 boundary nodes at which the boundary turns by only 1.3 .. 2.2 degrees
+    # (1 - cos = 2.7e-4 .. 7.7e-4), chord slivers 15 .. 24 m high on columns of ~1900 m
+    'g2arc':   dict(kind='file', file='tests/mulgrid/g2.dat', seed='inb'),
     # tiny grids for column_track
     'rect22':  dict(kind='rectsmall', dx=[1.0, 3.0], dy=[2.0, 1.5]),
     'rect31':  dict(kind='rectsmall', dx=[1.0, 2.5, 0.75], dy=[2.0]),
+    # column sizes 1 .. 100 next to each other (integer coordinates) for oblique tracks
+    'rect3c':  dict(kind='rectsmall', dx=[1.0, 10.0, 100.0], dy=[2.0, 20.0]),
+    # an L-shaped (NON-CONVEX, 6 nodes) column with a square column sitting in its notch and a pentagon beside them
+    'notch3':  dict(kind='notch3'),
 }
 
 RECT_DX = [1.0, 10.0, 100.0]      # column sizes 2 .. 20000: three orders of magnitude and more
@@ -45,6 +52,13 @@ MIX_COLS = [('  a', ['  a', '  b', '  e', '  d']),
             ('  e', ['  e', '  f', '  i', '  h', '  g'])]
 MIX_CONS = [('  a', '  b'), ('  a', '  c'), ('  b', '  d'), ('  b', '  e'), ('  c', '  e')]
 MIX_SURF = {1: -3.0, 2: -12.5, 4: 2.0}
+
+NOTCH_NODES = [('  a', 0.0, 0.0), ('  b', 4.0, 0.0), ('  c', 7.0, 0.0), ('  d', 4.0, 2.0), ('  e', 2.0, 2.0),
+               ('  f', 0.0, 4.0), ('  g', 2.0, 4.0), ('  h', 4.0, 4.0), ('  i', 7.0, 4.0)]
+NOTCH_COLS = [('  a', ['  a', '  b', '  d', '  e', '  g', '  f']),     # L-shaped: reflex vertex at node e
+              ('  b', ['  e', '  d', '  h', '  g']),                   # the square in the notch
+              ('  c', ['  b', '  c', '  i', '  h', '  d'])]            # pentagon (node d lies on its straight left side)
+NOTCH_CONS = [('  a', '  b'), ('  a', '  c'), ('  b', '  c')]
 
 
 def _dump(geo):
@@ -98,6 +112,12 @@ def make_spec(mg, name, ncols=None):
                     columns=[(n, list(nn), None, MIX_SURF.get(i)) for i, (n, nn) in enumerate(MIX_COLS)],
                     connections=list(MIX_CONS),
                     layers=[(' 0', 0.0, 0.0), (' 1', -5.0, -2.5), (' 2', -15.0, -10.0), (' 3', -20.0, -17.5)])
+    if d['kind'] == 'notch3':
+        return dict(convention=0, atmos_type=2,
+                    nodes=list(NOTCH_NODES),
+                    columns=[(n, list(nn), None, None) for (n, nn) in NOTCH_COLS],
+                    connections=list(NOTCH_CONS),
+                    layers=[(' 0', 0.0, 0.0), (' 1', -1.0, -0.5)])
     if d['kind'] == 'file':
         geo = mg.mulgrid(os.path.join(REPO, d['file']))
         cols = bfs_columns(geo, seed, ncols)
